@@ -130,7 +130,9 @@ def decide(rep, prog):
     brec = ix.parse_type('band_state').rec
     nsend = 0
     for es in range(Eu.states_no):
-        for wired in (True,):
+        for table_null in (False, True):
+            # (second run: the table could not be allocated at start-up and the station runs without one - a missing table
+            #  counts as an empty one)
             st = Eu.state0.fork()
             st.trace, st.tags = (), {}
             st.tags['clkfloor.ms'] = (LTX,)      # LTX <= every clock reading of this tick
@@ -159,7 +161,7 @@ def decide(rep, prog):
 
             def setup(I, st2):
                 ap = ix.parse_type('automata *')
-                return [Val(ap, ZERO), Val(ap, Eu.ret.t), Val(ix.parse_type('session_table *'), ('ptr', 'in:sessions', ZERO)),
+                return [Val(ap, ZERO), Val(ap, Eu.ret.t), Val(ix.parse_type('session_table *'), ZERO if table_null else ('ptr', 'in:sessions', ZERO)),
                         Val(ix.parse_type('const lltd_automata_tick_port *'), ('ptr', 'in:tickport', ZERO))]
             # the session table's validity bits are all zero here, so the expiry sweep changes nothing; count/flag stay symbolic
             def upd(I, s2, args, node, rty):
@@ -176,6 +178,13 @@ def decide(rep, prog):
                 e2 = s2.objs[Eu.oid]
                 cs = s2.dom(mem.load_scalar(s2, e2, C(Eu.field_off('current_state')), ix.parse_type('unsigned char')))
                 b2 = s2.objs[bext[1]]
+                if table_null:
+                    rep.check(not sends, 'R12.d', 'null-table-silent|%d' % es, 'a periodic Hello is sent although there is no session table at all', function='automata_tick', file=fnf)
+                    if es != Eu.initial:
+                        rep.check(cs.const() == Eu.initial, 'R12.d', 'null-table-reset|%d' % es,
+                                  'without a session table (its allocation failed at start-up) the enumerator stays in state %s: a missing table must count as an empty one, '
+                                  'or the responder keeps enumerating for ever' % cs, function='automata_tick', file=fnf)
+                    continue
                 if sends:
                     nsend += 1
                     desc = {'enumeration_state_before': es, 'count': repr(dc), 'all_complete': repr(da), 'sends': len(sends)}
